@@ -223,7 +223,7 @@ def events_for_tlc(combos, rng, count):
             ev = dict(base, op="keygen", order="be", rnd=list(c.rnd_key), ok=True, d=limbs(val(c.priv, o)), q=q, _case="keygen %s be 1 1 %s" % (c.cv.name, hx(c.rnd_key)))
         else:
             want_valid = kind.endswith("valid")
-            vs = [v for v in c.verdicts if v[2] == ("p" if kind.startswith("verifyp") else "v") and v[1].startswith("valid" if want_valid else "altered") and "other-key" not in v[1]]
+            vs = [v for v in getattr(c, "verdicts", []) if v[2] == ("p" if kind.startswith("verifyp") else "v") and v[1].startswith("valid" if want_valid else "altered") and "other-key" not in v[1]]
             if not vs: continue
             ln, what, k2, rc = rng.choice(vs)
             t = ln.split()
